@@ -1,4 +1,6 @@
 mod term;
+mod c12;
+mod c33;
 mod c37;
 mod c27;
 mod c38;
@@ -42,6 +44,8 @@ fn main() {
         "C38" => c38::run(seed, n, &mut out),
         "C27" => c27::run(seed, n, &mut out),
         "C37" => c37::run(seed, n, &mut out),
+        "C33" => c33::run(seed, n, &mut out),
+        "C12" => c12::run(seed, n, &mut out),
         _ => { eprintln!("unknown property {}", prop); std::process::exit(2); }
     }
 }
